@@ -136,6 +136,24 @@ Theorem c11_crash_after_all_writes :
 Proof. exact crash_after_all_writes. Qed.
 Print Assumptions c11_crash_after_all_writes.
 
+(* execute.New with a recovery that may fail (R8, fix 2c25a0f).  [budget] = how many store operations of
+   recovery succeed before one fails (None = all; 0 also stands for a context that is already done).
+   nil error (Opened): exactly the outcome of [select] - every Running non-stale plan was resumed, every
+   stale one closed (c11_resume_selection).  Error (Refused): there is no executor, so nothing was resumed
+   by this process, and the store is what a prefix of the closes' writes left (to which
+   c11_close_is_crash_safe applies). *)
+Theorem c11_new_error_or_complete_recovery :
+  forall (budget : option nat) (now stamp maxAge : Z) (recovery : bool) (s : list plan),
+    (forall s' resumed, execute_new budget now stamp maxAge recovery s = Opened s' resumed ->
+                        (s', resumed) = select now stamp maxAge recovery s) /\
+    (forall s', execute_new budget now stamp maxAge recovery s = Refused s' ->
+                recovery = true /\ exists j, s' = crash_during_close j now stamp maxAge s) /\
+    (budget = None -> keys_unique s ->
+     execute_new budget now stamp maxAge recovery s =
+     Opened (fst (select now stamp maxAge recovery s)) (snd (select now stamp maxAge recovery s))).
+Proof. exact new_error_or_complete_recovery. Qed.
+Print Assumptions c11_new_error_or_complete_recovery.
+
 (* the monitor of the correspondence check decides the specification's predicates *)
 Theorem c11_monitor_predicates :
   forall (now maxAge : Z) (p : plan),
@@ -180,6 +198,14 @@ Proof. exact ex_plan_row_last_refuted. Qed.
 Example c11_ex_crash_leaves_children_running :
   running_rows (fst (ex_restart (crash_during_close 1 ex_now ex_stamp ex_maxage [ex_aged]))) = 5.
 Proof. vm_compute. reflexivity. Qed.
+(* R9 (known finding, not repaired in /repo): c11_storage_recovery_first assumes that the search index
+   lists every durably Running plan.  cosmosdb's UpdatePlan patches the item and then replaces the search
+   entry; torn on the first write of a run the entry still says NotStarted, Vault.Recovery (which only
+   scans Running entries) does not repair it, and the live Running plan 40 is not resumed *)
+Example c11_ex_torn_first_write_refuted :
+  snd (open_workstream_torn [40%N] ex_now ex_stamp ex_maxage ex_vault) = [60%N] /\
+  is_running ex_live /\ stale ex_now ex_maxage ex_live = false.
+Proof. exact ex_torn_first_write_refuted. Qed.
 Example c11_ex_r1_plan_row_only_leaves_running :
   running_rows (persist [ex_aged] (writes_plan_only (age_out ex_stamp ex_aged))) = 5 /\
   running_rows (persist [ex_aged] (writes_aged (age_out ex_stamp ex_aged))) = 0.
